@@ -182,6 +182,42 @@ pub fn run_case(ctx: &Ctx, case: u64, ev: &mut Ev) {
         }
     }
 
+    // ---------- (2b) the Iterator form consumed through adaptors (nth / skip / step_by): same items
+    {
+        type Item = (usize, usize, usize, Vec<Aff>);
+        let conv = |(d, i, r, ps): (usize, usize, usize, Vec<affinitree::linalg::affine::Polytope>)| -> Item { (d, i, r, ps.iter().map(Aff::from_poly).collect()) };
+        let k = 1 + rng.below(4);
+        let st = 2 + rng.below(3);
+        let res = lib(case, "polyhedra_iter() through adaptors", || {
+            let full: Vec<Item> = tree.polyhedra_iter().map(conv).collect();
+            let skipped: Vec<Item> = tree.polyhedra_iter().skip(k).map(conv).collect();
+            let stepped: Vec<Item> = tree.polyhedra_iter().step_by(st).map(conv).collect();
+            let mut it = tree.polyhedra_iter();
+            let nth = it.nth(k).map(conv);
+            let after: Option<Item> = it.next().map(conv);
+            (full, skipped, stepped, nth, after)
+        });
+        let (full, skipped, stepped, nth, after) = match res {
+            Ok(x) => x,
+            Err(p) => fail!("c09:polyhedra_iter:panic", p),
+        };
+        if full.len() != s.nodes.len() || full.iter().any(|(_, i, _, ps)| reported.get(i).map_or(true, |r| r != ps)) {
+            fail!("c09:polyhedra_iter", "polyhedra_iter() and polyhedra() report different regions".to_string());
+        }
+        let exp_skip: Vec<Item> = full.iter().skip(k).cloned().collect();
+        let exp_step: Vec<Item> = full.iter().step_by(st).cloned().collect();
+        if skipped != exp_skip {
+            fail!("c09:polyhedra_iter:skip", format!("polyhedra_iter().skip({}) does not yield the items of the plain traversal from position {}", k, k));
+        }
+        if stepped != exp_step {
+            fail!("c09:polyhedra_iter:step_by", format!("polyhedra_iter().step_by({}) does not yield every {}-th item of the plain traversal", st, st));
+        }
+        if nth != full.get(k).cloned() || after != full.get(k + 1).cloned() {
+            fail!("c09:polyhedra_iter:nth", format!("polyhedra_iter().nth({}) / the item after it differ from the plain traversal", k));
+        }
+        ev.inc("adaptor_traversals_checked");
+    }
+
     // ---------- (3) routing vs reported regions, both directions
     let pts = gen::probes(&mut rng, &[&s], n, 60);
     let mut hyper = 0;
